@@ -194,6 +194,17 @@ func sweepCase(c *core.Case) {
 			}
 			vecs = append(vecs, v)
 		}
+		if op == opADDMOD || op == opMULMOD {
+			big13 := []*big.Int{big.NewInt(0), big.NewInt(1), big.NewInt(2), new(big.Int).SetUint64(^uint64(0)), pow2(64), new(big.Int).Sub(pow2(128), big.NewInt(1)), pow2(128),
+				new(big.Int).Sub(pow2(255), big.NewInt(1)), pow2(255), new(big.Int).Add(pow2(255), big.NewInt(1)), maxU256, new(big.Int).Sub(maxU256, big.NewInt(1)), new(big.Int).Sub(pow2(256), pow2(64))}
+			for _, x := range big13 {
+				for _, y := range big13 {
+					for _, z := range big13 {
+						vecs = append(vecs, []*big.Int{x, y, z})
+					}
+				}
+			}
+		}
 	}
 	for vi, v := range vecs {
 		a := &asm{}
@@ -650,6 +661,21 @@ func scenarios() []scenario {
 					w := miniWorld(gal, a.done(), nil, 3000000).withHelpers()
 					w.Note = fmt.Sprintf("%s to %s, caller overwrites its memory, then RETURNDATACOPY", opName(kind), callee)
 					ws = append(ws, w)
+					// output region overlapping the input region (shifted by 16 bytes): the copy of the
+					// output into memory must not change what RETURNDATACOPY delivers afterwards
+					b := &asm{}
+					b.push(new(big.Int).SetBytes(append(bytes.Repeat([]byte{0x11}, 16), bytes.Repeat([]byte{0x44}, 16)...))).pushU(0).op(opMSTORE)
+					b.pushU(32).pushU(16).pushU(32).pushU(0)
+					if kind == opCALL || kind == opCALLCODE {
+						b.pushU(0)
+					}
+					b.pushAddr(callee).op(opGAS).op(kind).op(opPOP)
+					b.pushU(32).pushU(0).pushU(0x80).op(opRETURNDATACOPY)
+					b.ret(0x80, 32)
+					w2 := miniWorld(gal, b.done(), nil, 3000000).withHelpers()
+					w2.Note = fmt.Sprintf("%s to %s with the output region overlapping the input region, then RETURNDATACOPY", opName(kind), callee)
+					w2.Want = "overlap"
+					ws = append(ws, w2)
 				}
 			}
 			return ws
@@ -659,6 +685,9 @@ func scenarios() []scenario {
 			return ""
 		}
 		want := bytes.Repeat([]byte{0x11}, 32)
+		if w.Want == "overlap" {
+			want = append(bytes.Repeat([]byte{0x11}, 16), bytes.Repeat([]byte{0x44}, 16)...)
+		}
 		if !bytes.Equal(k.Ret, want) {
 			return fmt.Sprintf("return data of the last call reads %x after the caller wrote to its own memory; the call returned %x (%s)", k.Ret, want, w.Note)
 		}
